@@ -446,6 +446,9 @@ impl<T: TagT> Actor for Probe<T> {
         for _ in 0..self.spec.stopped_yields {
             simrt::yield_now().await;
         }
+        if self.spec.stopped_sleep > 0 {
+            simrt::sleep_ns(self.spec.stopped_sleep).await;
+        }
         self.stopped_mark += 1;
         if T::TAG == Tag::Plain {
             // a recreate-from-default restart calls `Default::default()` right after this returns
